@@ -39,7 +39,12 @@ where
 
   fn actual_subscribe(self, observer: O) -> Self::Unsub {
     let Self { scheduler, dur, delay } = self;
-    scheduler.schedule(RepeatTask::new(dur, interval_task, observer), delay)
+    // the first tick is due one period after subscription, or at the instant
+    // given to `interval_at`; later ticks one period after the previous.
+    let first = delay.unwrap_or(dur);
+    let task =
+      RepeatTask::with_first_delay(first, dur, interval_task, observer);
+    scheduler.schedule(task, None)
   }
 }
 
